@@ -63,7 +63,7 @@ class Quantity(DimensionSymbol, SymQuantity):  # type: ignore[misc]  # pylint: d
     def _eval_is_positive(self) -> bool:
         # NOTE: returns False for complex values, see https://github.com/blackyblack/symplyphysics/blob/3e7e05b9837c70bb23d36202b9e958b739cd36bc/test/electricity/circuits/transmission_lines/transmission_matrix_lossy_transmission_line_test.py#L23
         try:
-            return scale_factor(self) >= 0
+            return scale_factor(self) > 0
         except TypeError:
             return False
 
